@@ -99,9 +99,15 @@ def check_bind(r) -> list[Fail]:
                 return drv.work_ens if vec else drv.work
             return drv.optimize_ens if vec else drv.optimize_m
 
+        nverify = [0]
+
         def verify(di, vec, job, when):
+            # the caller's own argument: none / positional / keyword (rotating), must arrive in the command of every prepared input
+            form = nverify[0] % 3 if cls is HDriver else 0
+            nverify[0] += 1
+            pa, kwa, tag = [((), {}, "t"), (("TAGP",), {}, "TAGP"), ((), {"tag": "TAGK"}, "TAGK")][form]
             try:
-                prep = job.prepare(ens if vec else mol)
+                prep = job.prepare(ens if vec else mol, *pa, **kwa)
                 inputs = list(prep) if vec else [prep]
             except Exception as e:
                 s = exc_sig(e)
@@ -121,6 +127,10 @@ def check_bind(r) -> list[Fail]:
                 got_np = toks[toks.index(np_flag) + 1] if np_flag in toks else None
                 if got_np != str(want["nprocs"]):
                     fails.append(Fail("wrong-nprocs", f"{when}: {np_flag} {got_np}, driver {di} has {want['nprocs']}"))
+                if cls is HDriver and (toks[toks.index("--tag") + 1] if "--tag" in toks else None) != tag:
+                    fails.append(Fail("callers-argument-not-in-the-prepared-input", f"{when}: argument given {['not at all', 'positionally', 'by keyword'][form]} ({tag!r}); command is {cmd!r}"))
+                if cls is HDriver and inp.jid != "w":
+                    fails.append(Fail("prepared-input-built-from-the-wrong-object", f"{when}: jid {inp.jid!r}"))
                 if cls is HDriver and inp.envars != want["envars"]:
                     fails.append(Fail("wrong-environment", f"{when}: envars {inp.envars}, driver {di} has {want['envars']}"))
             if cls is not HDriver:
